@@ -70,10 +70,18 @@ var constructs = []construct{
 	{"bogus-bang", "<!", "", 0, refhtml.TagComment, []string{">", "a", " ", "<", "/"}, endStr(">")},
 	{"bogus-question", "<?", "", 0, refhtml.TagComment, []string{">", "a", " ", "<", "?"}, endStr(">")},
 	{"doctype", "<!", "doctype ", 0, refhtml.DocType, []string{">", "a", " ", "<", "\""}, endStr(">")},
-	{"squote-value", "<a b='", "", 2, refhtml.AttrValue, []string{"'", "\"", ">", "a", " "}, endStr("'")},
-	{"dquote-value", "<a b=\"", "", 2, refhtml.AttrValue, []string{"\"", "'", ">", "a", " "}, endStr("\"")},
-	{"bquote-value", "<a b=`", "", 2, refhtml.AttrValue, []string{"`", "'", ">", "a", " "}, endStr("`")},
+	{"squote-value", "<a b='", "", 2, refhtml.AttrValue, []string{"'", "\"", ">", "a", "\\"}, endStr("'")},
+	{"dquote-value", "<a b=\"", "", 2, refhtml.AttrValue, []string{"\"", "'", ">", "a", "\\"}, endStr("\"")},
+	{"bquote-value", "<a b=`", "", 2, refhtml.AttrValue, []string{"`", "'", ">", "a", "\\"}, endStr("`")},
+	// case variants of the CDATA marker are NOT CDATA: they are `<! .. >` constructs ending at the first '>'
+	{"lowercase-cdata-is-bogus", "<!", "[cdata[", 0, refhtml.TagComment, []string{">", "a", "]", "<", " "}, endStr(">")},
+	{"mixedcase-cdata-is-bogus", "<!", "[CDATa[", 0, refhtml.TagComment, []string{">", "a", "]", "<", " "}, endStr(">")},
 }
+
+// c17Wide: the union of every construct's terminator / decoy bytes. A scanner that starts honouring
+// another construct's conventions (NUL tolerance, backslash escapes, a different closer) shows up
+// when its bodies are drawn from this alphabet.
+var c17Wide = []string{"%", ">", "]", "-", "!", "\x00", "'", "\"", "`", "\\", "a", " ", "<"}
 
 var c17Tails = []string{"", "<x>", "<script>"}
 
@@ -88,6 +96,7 @@ func shiftToks(ts []lib.VerifH5Tok, d int) string {
 func evalC17Term(w *fw.W, body, aux string) {
 	var cs *construct
 	tail := ""
+	aux = strings.TrimPrefix(aux, "wide:")
 	for i := range constructs {
 		for _, tl := range c17Tails {
 			if aux == constructs[i].name+"|"+tl {
@@ -169,7 +178,7 @@ func init() {
 		QuickS:    60,
 		ThoroughS: 600,
 		Rule: "(a) every string over the HTML alphabets up to the completed level, in 5 contexts: token bounds/order/count invariants on the real token stream; " +
-			"(b) for each of 9 delimited constructs, EVERY body over the construct's terminator+decoy alphabet up to length 8 (quick) / 9 (thorough) x 3 tails: " +
+			"(b) for each of 11 delimited constructs (incl. case variants of the CDATA marker, which are NOT CDATA), EVERY body over the construct's terminator+decoy alphabet up to length 8 (quick) / 9 (thorough) x 3 tails: " +
 			"the construct token must start after the opener, end at the first terminator found by an independent search, and tokenizing must resume as after an empty construct; " +
 			"non-trivial = more than one token (a) / body contains a terminator (b)",
 		Assumptions: []string{"first-terminator oracles are plain forward searches (strings.Index / explicit pattern for comments) independent of the tokenizer"},
@@ -199,6 +208,30 @@ func init() {
 							}
 							for _, a := range cs.alpha {
 								nb := b + a
+								w.Item(nb, aux)
+								rec(nb, d+1)
+							}
+						}
+						rec("", 0)
+					})
+				}, Eval: evalC17Term},
+			{Name: "first-terminator-wide", Space: "11 constructs x every body over the 13-symbol union alphabet of all terminator/escape/decoy bytes, length <=4 (quick) / <=5 (thorough) x 3 tails", Share: 3,
+				Run: func(w *fw.W) {
+					maxL := w.Pick(4, 5)
+					w.Each(len(constructs)*len(c17Tails), func(i int) {
+						cs := constructs[i/len(c17Tails)]
+						aux := "wide:" + cs.name + "|" + c17Tails[i%len(c17Tails)]
+						var rec func(b string, d int)
+						rec = func(b string, d int) {
+							if d == maxL || w.Expired() {
+								return
+							}
+							for _, a := range c17Wide {
+								nb := b + a
+								// bodies that change which construct the opener starts are not bodies of this construct
+								if cs.opener == "<!" && cs.pre == "" && (strings.HasPrefix(nb, "-") || strings.HasPrefix(nb, "[") || strings.HasPrefix(nb, "d")) {
+									continue
+								}
 								w.Item(nb, aux)
 								rec(nb, d+1)
 							}
